@@ -274,6 +274,8 @@ func (fc *FuncCtx) fieldLoc(st *State, base Val, sel *types.Selection, pos token
 func (fc *FuncCtx) nilCheck(st *State, ref *Term, pos token.Pos) {
 	if fc.contract != nil && fc.contract.Opts["nilcheck"] == "on" && fc.noOblig == 0 {
 		fc.emit(st, "nil", "dereferenced reference is non-nil", Not(Eq(ref, Const("nil", SV))), pos, "")
+		// after the access the reference was non-nil (otherwise the program panicked)
+		st.assume(Not(Eq(ref, Const("nil", SV))))
 	}
 }
 
